@@ -150,6 +150,18 @@ PROPS = {
         "rule": CONC_RULE + "; C14: 1-8 Watchers with buffers {0,1,2,4,64,4096,65536,3} on one directory, one sequential history, Add/Remove/WatchList/Close churn on the others: event sequences must be identical; cap(Events) read directly; absorb test per size",
         "assumptions": ["kernel isolation between inotify instances (measured)"],
     },
+    "C19": {
+        "lean": ["FsnVerif.Props.C19"],
+        "lean_support": ["FsnVerif.Model.Inotify", "FsnVerif.Proofs.ALLemmas"],
+        "stages": [{"name": "recur", "cmd": "recur", "what": "C19", "sessions": True}],
+        "rule": "recursion enabled (VerifSetRecurse); two recursive roots r/... and r2/... over trees whose sibling names share "
+                "prefixes (dir1/dir10/dir100, sub/sub2, x/x0); steps: file write/chmod/unlink at every depth, mkdir of ONE new "
+                "level, rename of an inner directory within its own tree, rmdir, Remove / re-Add of one root; after every step "
+                "the real kernel queue is drained into the reader (kernel answers for registrations supplied by inode "
+                "identity) and everything compared with the Lean model; independent monitor: every event is named by a "
+                "path the step really touched, steps inside a covered tree are reported, steps outside are not, Errors stays silent",
+        "assumptions": ["bursts (mkdir -p) and moves across the tree boundary are outside the property's quantifier and are not generated"],
+    },
     "C20": {
         "lean": ["FsnVerif.Props.C20"],
         "lean_support": ["FsnVerif.Model.Diff", "FsnVerif.Proofs.DiffLemmas"],
